@@ -1,4 +1,4 @@
-import Votca.Lemmas.C11
+import Votca.Lemmas.C11Merge
 /-! # C11 — option handling merges user input over defaults without loss or invention
 
 Theorems about the passes of `Votca/Model/C11.lean` (the model is executed against OptionsHandler::ProcessUserInput on every
@@ -131,6 +131,129 @@ theorem injectDefaults_leaf (fuel : Nat) (t p : PTree) (hp : p ∈ t.children) (
     · cases p; simp [withValue, PTree.name, PTree.attrs, PTree.value]
     · simp
 
+/-! ## the merge pass: user values over declared defaults, nothing invented -/
+
+/-- merging user input over a non-list, checked default node: the node keeps its name, takes the user's value, is marked as
+    supplied, and has exactly the declared children in the declared order — each merged with the user's last element of that
+    name, or untouched when the user has none -/
+theorem overwrite_nolist (fuel : Nat) (user defaults r : PTree) (hl : defaults.hasAttr "list" = false)
+    (hu : defaults.hasAttr "unchecked" = false) (h : overwrite (fuel + 1) user defaults = .ok r) :
+    r.name = defaults.name ∧ r.value = user.value ∧ r.hasAttr "injected" = true ∧
+    List.Forall₂ (fun d c => match getLast user.children d.name with
+                            | some u => overwrite fuel u d = .ok c
+                            | none => c = d) defaults.children r.children := by
+  unfold overwrite at h
+  simp only [hl, Bool.not_false, if_true] at h
+  generalize hm : List.mapM (m := Except String) _ _ = m at h
+  cases m with
+  | error e => simp [Except.map] at h
+  | ok cs =>
+    simp only [Except.map] at h
+    have hun : (((defaults.withValue user.value).setAttr "injected" "true").withChildren cs).hasAttr "unchecked" = false := by
+      rw [hasAttr_def] at hu ⊢
+      simp only [withChildren_attrs, setAttr_attrs, withValue_attrs]
+      rw [any_insertAttr_ne "injected" "unchecked" "true" (by decide)]
+      exact hu
+    rw [hun] at h
+    simp only [Bool.false_eq_true, if_false] at h
+    cases h
+    have hf := mapM_ok_forall2 _ _ _ hm
+    simp only [setAttr_children, withValue_children] at hf
+    refine ⟨by simp, by simp, ?_, ?_⟩
+    · rw [hasAttr_def]; simp only [withChildren_attrs, setAttr_attrs]; exact any_insertAttr_self _ _ _
+    · simp only [withChildren_children]
+      refine hf.imp ?_
+      intro d c hdc
+      cases hg : getLast user.children d.name with
+      | none => rw [hg] at hdc; cases hdc; rfl
+      | some u => rw [hg] at hdc; exact hdc
+
+/-- merging never renames a node: the result carries the declared name (list and unchecked sections included) -/
+theorem overwrite_name (fuel : Nat) (user defaults r : PTree) (h : overwrite fuel user defaults = .ok r) :
+    r.name = defaults.name := by
+  cases fuel with
+  | zero => simp [overwrite] at h
+  | succ fuel =>
+    unfold overwrite at h
+    simp only [] at h
+    generalize hs : (if (!defaults.hasAttr "list") = true then _ else _ : Except String PTree) = step1 at h
+    cases step1 with
+    | error e => simp [Except.map] at h
+    | ok d =>
+      simp only [Except.map] at h
+      have hd : d.name = defaults.name := by
+        by_cases hl : (!defaults.hasAttr "list") = true
+        · rw [if_pos hl] at hs
+          generalize hm : List.mapM (m := Except String) _ _ = m at hs
+          cases m with
+          | error e => simp [Except.map] at hs
+          | ok cs => simp only [Except.map] at hs; cases hs; simp
+        · rw [if_neg hl] at hs
+          split at hs
+          · cases hs
+          · refine foldl_except_inv (fun d => d.name = defaults.name) _ (fun _ _ => rfl) ?_ _ _ d ?_ hs
+            · intro a tag a' ha hstep
+              simp only [] at hstep
+              split at hstep
+              · cases hstep; simp [ha]
+              · split at hstep
+                · cases hstep; exact ha
+                · generalize hm2 : List.foldl _ _ _ = m2 at hstep
+                  cases m2 with
+                  | error e => simp [Except.map] at hstep
+                  | ok l => simp only [Except.map] at hstep; cases hstep; simp [ha]
+            · intro a ha; cases ha; simp
+      cases h
+      split
+      · simp [hd]
+      · exact hd
+
+/-- nothing else: below a checked, non-list node the merged tree has exactly the declared children, in declared order -/
+theorem merged_children_are_the_declared (fuel : Nat) (user defaults r : PTree) (hl : defaults.hasAttr "list" = false)
+    (hu : defaults.hasAttr "unchecked" = false) (h : overwrite (fuel + 1) user defaults = .ok r) :
+    r.children.map (·.name) = defaults.children.map (·.name) := by
+  obtain ⟨_, _, _, hf⟩ := overwrite_nolist fuel user defaults r hl hu h
+  generalize defaults.children = ds0 at hf
+  generalize r.children = cs0 at hf
+  induction hf with
+  | nil => rfl
+  | @cons d c ds cs hdc _ ih =>
+    simp only [List.map_cons]
+    congr 1
+    cases hg : getLast user.children d.name with
+    | none => rw [hg] at hdc; rw [hdc]
+    | some u => rw [hg] at hdc; exact overwrite_name fuel u d c hdc
+
+/-- every declared (non-list, checked) child the user supplied carries the user's value and is marked as supplied; every child
+    the user left out is the declared node, untouched -/
+theorem supplied_children_carry_user_values (fuel : Nat) (user defaults r : PTree) (hl : defaults.hasAttr "list" = false)
+    (hu : defaults.hasAttr "unchecked" = false) (h : overwrite (fuel + 2) user defaults = .ok r) :
+    List.Forall₂ (fun d c => match getLast user.children d.name with
+        | some u => d.hasAttr "list" = false → d.hasAttr "unchecked" = false →
+            c.name = d.name ∧ c.value = u.value ∧ c.hasAttr "injected" = true
+        | none => c = d) defaults.children r.children := by
+  obtain ⟨_, _, _, hf⟩ := overwrite_nolist (fuel + 1) user defaults r hl hu h
+  refine hf.imp ?_
+  intro d c hdc
+  cases hg : getLast user.children d.name with
+  | none => rw [hg] at hdc; exact hdc
+  | some u =>
+    rw [hg] at hdc
+    intro hdl hdu
+    obtain ⟨h1, h2, h3, _⟩ := overwrite_nolist fuel u d c hdl hdu hdc
+    exact ⟨h1, h2, h3⟩
+
+/-- a supplied leaf keeps the user's value through `InjectDefaultsAsValues`: only leaves NOT marked as supplied take defaults -/
+theorem supplied_leaf_survives_injection (fuel : Nat) (t p : PTree) (hp : p ∈ t.children) (hleaf : p.children = [])
+    (hinj : p.hasAttr "injected" = true) :
+    ∃ p2 ∈ (injectDefaults (fuel + 1) t).children, p2.name = p.name ∧ p2.value = p.value := by
+  obtain ⟨p2, hp2, hn, _, hv⟩ := injectDefaults_leaf fuel t p hp hleaf
+  refine ⟨p2, hp2, hn, ?_⟩
+  rw [hv]
+  cases hd : p.attr "default" with
+  | none => rfl
+  | some v => simp [hinj]
+
 /-! ## values outside the declared choices / types are rejected -/
 
 /-- `RecursivelyCheckOptions` accepts only trees whose leaves below the root all satisfy their declared choices -/
@@ -202,5 +325,13 @@ def demoUser : PTree := node "" "" [] [node "options" "" [] [node "calc" "" [] [
 example : (match processUserInput demoUser demoDefaults with
     | .ok t => (t.children.map fun o => o.children.map fun c => c.children.map fun l => (l.name, l.value)) == [[[("job", "run1"), ("tol", "1e-3")]]]
     | .error _ => false) = true := by decide +kernel
+
+/-! non-vacuity of the merge theorems: the `calc` node is checked and not a list, and the merge succeeds on it -/
+def demoCalcD : PTree := node "calc" "" [] [node "job" "" [("default", "REQUIRED")] [], node "tol" "" [("choices", "float+"), ("default", "1e-3")] []]
+def demoCalcU : PTree := node "calc" "" [] [node "job" "run1" [] []]
+example : demoCalcD.hasAttr "list" = false ∧ demoCalcD.hasAttr "unchecked" = false ∧
+    (match overwrite 4 demoCalcU demoCalcD with
+     | .ok r => r.children.map (fun c => (c.name, c.value, c.hasAttr "injected")) == [("job", "run1", true), ("tol", "", false)]
+     | .error _ => false) = true := by decide +kernel
 
 end Votca.C11
